@@ -1,5 +1,5 @@
 #!/usr/bin/env python3
-"""tools/mutants.py [--list] [--stride K] [--only REGEX]   (audit aid, not a check)
+"""tools/mutants.py [--list] [--stride K] [--offset N] [--only REGEX]   (audit aid, not a check)
 
 Mechanical mutation of /repo/src (one small operator-level change at a time: comparison and
 boolean operators, +-1, integer literals, true/false, is_some/is_none, one call statement
@@ -116,7 +116,8 @@ def main():
     all_sites = sites()
     if only:
         all_sites = [s for s in all_sites if only.search(s[0])]
-    chosen = all_sites[::stride]
+    offset = int(args[args.index("--offset") + 1]) if "--offset" in args else 0
+    chosen = all_sites[offset::stride]
     if "--list" in args:
         import collections
         c = collections.Counter(s[0] for s in all_sites)
